@@ -4,6 +4,7 @@ import OpusProofs.EncSkelCtl
 import OpusProofs.EncSkelMs
 import OpusProofs.EncSkelCvbr
 import OpusProofs.EncSkelMsRate
+import OpusProofs.EncSkelMsLive
 /-
   Property C05 — "Encoder honours the buffer limit, exact CBR size and the bitrate target".
 
@@ -18,7 +19,7 @@ import OpusProofs.EncSkelMsRate
   `entryCheck … = none` is: `frame_size > 0`, `out_data_bytes ≥ 1`, not (1 byte ∧ 100 ms).
 -/
 namespace OpusProps.C05
-open Opus Opus.EncSkel Opus.EncDecide Opus.EncSkel.Proofs Opus.Ctl
+open Opus Opus.EncSkel Opus.EncDecide Opus.EncSkel.Proofs Opus.Ctl Opus.Repack Opus.FramingSpec
 
 /-- Clause "exactly the size round(bitrate x duration / 8) clipped to …": `cbr_bytes` of
     opus_encoder.c:1255-1257 IS `min(⌊bitrate·T/8 + ½⌋, max_data_bytes)` over ℚ with
@@ -149,24 +150,31 @@ theorem encode_keeps_encInv (e : EncSt) (s : St) (fuzz : Bool) (fsz out : Int) (
   let h := encode_keeps_inv e s fuzz fsz out or o hi hr ho hf
   ⟨h.1, h.2.1, h.2.2.1⟩
 
-/-- "same for multistream with its per-stream split": the budget arithmetic of
-    `opus_multistream_encode_native` (:855-1012; `msCurrMax`, `msMaxBytes`, tied to the real per-stream
-    budgets by suite op `mscurr2`).  With `n ≥ 1` streams and `max_data_bytes ≥ smallest_packet` (below
-    that the call returns OPUS_BUFFER_TOO_SMALL) — and, only for CBR with OPUS_AUTO where the clamp of :882
-    has no lower bound, the allocated rate worth `smallest_packet` bytes — for ALL per-stream behaviours
-    within the single-stream contract (`1 ≤ len ≤ curr_max`, `ret_le_out`): every stream is handed a legal
-    budget (≥ 1 byte, ≥ 2 for 100 ms), the self-delimited length reserve `curr_max>253 ? 2 : 1` always
-    suffices, `1 ≤ ret ≤ max_data_bytes`, and with VBR off `ret` is exactly the clamped size. -/
-theorem ms_encode_ret_le_out (n fs fsz vbr bitrate rateSum maxData : Int) (xs : List MsStream)
-    (hn : 1 ≤ n) (hlen : (xs.length : Int) = n) (hsmall : msSmallest n fs fsz ≤ maxData)
-    (hauto : vbr = 0 → bitrate = OPUS_AUTO → msSmallest n fs fsz ≤ 3 * rateSum / (3 * 8 * fs / fsz))
-    (hok : msAllOk n fs fsz vbr (msMaxBytes vbr bitrate rateSum n fs fsz maxData) xs 0 0) :
-    msBudgetsOk n fs fsz (msMaxBytes vbr bitrate rateSum n fs fsz maxData) xs 0 0 ∧
-    1 ≤ msLoop n fs fsz vbr (msMaxBytes vbr bitrate rateSum n fs fsz maxData) xs 0 0 ∧
-    msLoop n fs fsz vbr (msMaxBytes vbr bitrate rateSum n fs fsz maxData) xs 0 0 ≤ maxData ∧
-    (vbr = 0 → msLoop n fs fsz vbr (msMaxBytes vbr bitrate rateSum n fs fsz maxData) xs 0 0 =
-       msMaxBytes vbr bitrate rateSum n fs fsz maxData) :=
-  Opus.EncSkel.Proofs.ms_encode_ret_le_out n fs fsz vbr bitrate rateSum maxData xs hn hlen hsmall hauto hok
+/-- "same for multistream with its per-stream split" — stated over property C10's model of
+    `opus_multistream_encode_native` (`Opus.MsEncode.encodeNative`, OpusModel/MsEncode.lean: entry test, CBR clamp, the
+    stream loop with the real repacketiser model of C07; executed against the code by C10's `msenc` suite; its `currMax`
+    is `msCurrMax` of this property's tie op `mscurr3`, `msCurrMax_eq_c10`).  For every stream count, rate, frame size,
+    VBR/CBR, explicit bit-rate or OPUS_BITRATE_MAX, `max_data_bytes`, and EVERY per-stream encoder behaviour `enc` within
+    the single-stream contracts
+      * `EncContract`: a SUCCESSFUL call returns a valid packet of the common duration in at most `curr_max` bytes
+        (C02 `encode_wellformed`, C05 `ret_le_out`) — nothing is assumed about calls that fail,
+      * `EncLive`: a call with a legal budget (`curr_max ≥ 1`, not 1 byte for 100 ms) succeeds (C05 `ret_le_out`),
+    the call returns OPUS_BUFFER_TOO_SMALL iff `max_data_bytes < smallest_packet`, and otherwise SUCCEEDS — the budget
+    split never hands a stream an illegal budget, the self-delimiting length reserve always suffices — with
+    `1 ≤ ret ≤ max_data_bytes`, `ret` exactly the clamped size with VBR off, and the bytes a concatenation of valid
+    self-delimited packets of the common duration. -/
+theorem ms_encode_ret_le_out (n : Nat) (hn : 1 ≤ n) (fs fsz : Nat) (vbr : Bool) (bitrate : Option Int) (maxData : Int)
+    (enc : Nat → Int → Res Bytes) (hc : MsEncode.EncContract fs fsz enc) (ht : MsEncode.EncTotal enc)
+    (hlive : EncLive (decide (fs / fsz = 10)) enc) :
+    (maxData < MsEncode.smallestPacket n (decide (fs / fsz = 10)) →
+      MsEncode.encodeNative n fs fsz vbr bitrate maxData enc = .err .bufferTooSmall) ∧
+    (MsEncode.smallestPacket n (decide (fs / fsz = 10)) ≤ maxData →
+      ∃ out, MsEncode.encodeNative n fs fsz vbr bitrate maxData enc = .ok out ∧ 1 ≤ out.length ∧
+        (out.length : Int) ≤ maxData ∧
+        (vbr = false → (out.length : Int) = MsEncode.cbrClamp n (decide (fs / fsz = 10)) vbr fs fsz bitrate maxData) ∧
+        ∃ ps : List Packet, ps.length = n ∧ (∀ p ∈ ps, Valid p) ∧ (∀ p ∈ ps, LayoutSpec.duration fs p = fsz) ∧
+          out = LayoutSpec.msSerialize ps) :=
+  ms_encode_native_ret n hn fs fsz vbr bitrate maxData enc hc ht hlive
 
 /-! ### Multistream rate allocation (src/opus_multistream_encoder.c:668-798; model `OpusModel/EncSkel/MsRate.lean`,
     tied per stream on a layouts × rates × frame-sizes grid by suite op `msrate`) -/
@@ -255,24 +263,59 @@ example :
     msRates { nbStreams := 1, nbCoupled := 1, lfeStream := -1, ambisonics := false } 48000 960 9000000 = [9000000] := by
   decide +kernel
 
-/-- **`ms_encode_ret_le_out` with the real allocation and no hypothesis on it.**  For every layout, legal frame size,
-    VBR / CBR, and every bit-rate setting incl. OPUS_AUTO (where the CBR clamp `3*rate_sum/(3*8*Fs/frame_size)` of :882
-    has no explicit lower bound: the allocated sum is always ≥ 9600 b/s per stream, worth ≥ `smallest_packet` bytes):
-    if `max_data_bytes ≥ smallest_packet` (else OPUS_BUFFER_TOO_SMALL), then for all per-stream behaviours within the
-    single-stream contract every stream is handed a legal budget, `1 ≤ ret ≤ max_data_bytes`, and with VBR off `ret` is
-    exactly the clamped size. -/
-theorem ms_encode_ret_le_out_alloc (l : MsLayout) (hl : MsLayoutOk l) (fs fsz vbr br maxData : Int) (xs : List MsStream)
+/-- **… for every bit-rate setting incl. OPUS_AUTO, with the real rate allocation.**  `msEncodeAlloc` is the entry test
+    of :860 followed by C10's stream loop run on the `max_data_bytes` the CBR clamp of :878-888 leaves, where for OPUS_AUTO
+    the clamp uses the sum of `rate_allocation` (`msMaxBytesAlloc`, tied by suite op `mscurr3`); for every other setting it
+    IS C10's `MsEncode.encodeNative` (last conjunct).  Same contracts on the per-stream encoder as above; additionally a
+    layout the create functions admit and a legal frame size (they bound the AUTO rate sum from below: the clamp
+    `3*rate_sum/(3*8*Fs/frame_size)` of :882, which has no explicit lower bound in the code, is never below
+    `smallest_packet`).  Then: OPUS_BUFFER_TOO_SMALL iff `max_data_bytes < smallest_packet`; otherwise success with
+    `1 ≤ ret ≤ max_data_bytes`, exactly `msMaxBytesAlloc` bytes with VBR off, valid multistream structure. -/
+theorem ms_encode_ret_le_out_alloc (l : MsLayout) (hl : MsLayoutOk l) (fs fsz : Nat)
     (hfs : fs = 8000 ∨ fs = 12000 ∨ fs = 16000 ∨ fs = 24000 ∨ fs = 48000) (hleg : legalFrame fs fsz = true)
-    (hlen : (xs.length : Int) = l.nbStreams) (hsmall : msSmallest l.nbStreams fs fsz ≤ maxData)
-    (hok : msAllOk l.nbStreams fs fsz vbr (msMaxBytesAlloc l vbr br fs fsz maxData) xs 0 0) :
-    msBudgetsOk l.nbStreams fs fsz (msMaxBytesAlloc l vbr br fs fsz maxData) xs 0 0 ∧
-    1 ≤ msLoop l.nbStreams fs fsz vbr (msMaxBytesAlloc l vbr br fs fsz maxData) xs 0 0 ∧
-    msLoop l.nbStreams fs fsz vbr (msMaxBytesAlloc l vbr br fs fsz maxData) xs 0 0 ≤ maxData ∧
-    (vbr = 0 → msLoop l.nbStreams fs fsz vbr (msMaxBytesAlloc l vbr br fs fsz maxData) xs 0 0 =
-       msMaxBytesAlloc l vbr br fs fsz maxData) ∧
-    msSmallest l.nbStreams fs fsz ≤ 3 * msRateSum l fs fsz OPUS_AUTO / (3 * 8 * fs / fsz) :=
-  let h := Opus.EncSkel.Proofs.ms_encode_ret_le_out_alloc l hl fs fsz vbr br maxData xs hfs hleg hlen hsmall hok
-  ⟨h.1, h.2.1, h.2.2.1, h.2.2.2, ms_auto_enough l hl fs fsz hfs hleg⟩
+    (vbr : Bool) (br maxData : Int) (enc : Nat → Int → Res Bytes)
+    (hc : MsEncode.EncContract fs fsz enc) (ht : MsEncode.EncTotal enc) (hlive : EncLive (decide (fs / fsz = 10)) enc) :
+    (maxData < msSmallest l.nbStreams fs fsz → msEncodeAlloc l fs fsz vbr br maxData enc = .err .bufferTooSmall) ∧
+    (msSmallest l.nbStreams fs fsz ≤ maxData →
+      ∃ out, msEncodeAlloc l fs fsz vbr br maxData enc = .ok out ∧ 1 ≤ out.length ∧ (out.length : Int) ≤ maxData ∧
+        (vbr = false → (out.length : Int) = msMaxBytesAlloc l 0 br fs fsz maxData) ∧
+        ∃ ps : List Packet, (ps.length : Int) = l.nbStreams ∧ (∀ p ∈ ps, Valid p) ∧ (∀ p ∈ ps, LayoutSpec.duration fs p = fsz) ∧
+          out = LayoutSpec.msSerialize ps) ∧
+    msSmallest l.nbStreams fs fsz ≤ 3 * msRateSum l fs fsz OPUS_AUTO / (3 * 8 * (fs : Int) / fsz) ∧
+    (br ≠ OPUS_AUTO → msEncodeAlloc l fs fsz vbr br maxData enc =
+      MsEncode.encodeNative l.nbStreams.toNat fs fsz vbr (brOpt br) maxData enc) := by
+  have hfsI : (fs : Int) = 8000 ∨ (fs : Int) = 12000 ∨ (fs : Int) = 16000 ∨ (fs : Int) = 24000 ∨ (fs : Int) = 48000 := by omega
+  obtain ⟨h1, h2⟩ := ms_encode_alloc_ret l hl fs fsz hfs hleg vbr br maxData enc hc ht hlive
+  exact ⟨h1, h2, ms_auto_enough l hl fs fsz hfsI hleg,
+    fun hb => msEncodeAlloc_eq l (by have := hl.n1; omega) fs fsz vbr br maxData enc hb⟩
+
+/-- **… and with the single-stream encoder skeleton in every stream** (C10's `skelEnc`: stream `s` is
+    `Opus.EncSkel.encodeNative` on an arbitrary state `sts s` at rate `fs`, with ANY inner SILK/CELT/analysis oracle answers
+    within the skeleton's own contracts, `SkelOk`): both contracts on the per-stream encoder are THEOREMS
+    (`skelEnc_contract`: `encode_wellformed` + `ret_le_out`; `skelEnc_live`: `ret_le_out` on every legal budget), so nothing
+    about the per-stream encoder is assumed beyond those inner contracts. -/
+theorem ms_encode_ret_le_out_skel (l : MsLayout) (hl : MsLayoutOk l) (fs : Nat) (fsz : Int)
+    (hfs : fs = 8000 ∨ fs = 12000 ∨ fs = 16000 ∨ fs = 24000 ∨ fs = 48000) (hleg : legalFrame fs fsz = true)
+    (vbr : Bool) (br maxData : Int) (sts : Nat → St) (hfsAll : ∀ s, (sts s).fs = (fs : Int)) (fuzz : Bool)
+    (ors : Nat → Int → NatOr) (frs : Nat → Int → List Bytes) (hok : MsEncode.SkelOk sts fuzz fsz ors frs) :
+    (maxData < msSmallest l.nbStreams fs fsz →
+      msEncodeAlloc l fs fsz.toNat vbr br maxData (MsEncode.skelEnc sts fuzz fsz ors frs) = .err .bufferTooSmall) ∧
+    (msSmallest l.nbStreams fs fsz ≤ maxData →
+      ∃ out, msEncodeAlloc l fs fsz.toNat vbr br maxData (MsEncode.skelEnc sts fuzz fsz ors frs) = .ok out ∧
+        1 ≤ out.length ∧ (out.length : Int) ≤ maxData ∧
+        (vbr = false → (out.length : Int) = msMaxBytesAlloc l 0 br fs fsz maxData)) := by
+  have hfsI : (fs : Int) = 8000 ∨ (fs : Int) = 12000 ∨ (fs : Int) = 16000 ∨ (fs : Int) = 24000 ∨ (fs : Int) = 48000 := by omega
+  have hfz : 0 < fsz := (legal_rate fs fsz hfsI hleg).1
+  have hz : ((fsz.toNat : Nat) : Int) = fsz := Int.toNat_of_nonneg (by omega)
+  have hlive : EncLive (decide (fs / fsz.toNat = 10)) (MsEncode.skelEnc sts fuzz fsz ors frs) := by
+    rw [fs100_eq, hz]
+    exact skelEnc_live sts fuzz fsz hfz ors frs fs hfsAll hok
+  obtain ⟨h1, h2⟩ := ms_encode_alloc_ret l hl fs fsz.toNat hfs (by rw [hz]; exact hleg) vbr br maxData _
+    (MsEncode.skelEnc_contract sts fuzz fsz ors frs fs hfsAll hok) (MsEncode.skelEnc_total sts fuzz fsz ors frs) hlive
+  rw [hz] at h1 h2
+  refine ⟨h1, fun h => ?_⟩
+  obtain ⟨out, a, b, c, d, -⟩ := h2 h
+  exact ⟨out, a, b, c, d⟩
 
 /-- Clause "with constrained VBR the long-term average rate does not exceed the requested bitrate beyond
     a small tolerance", integer part (P2): the bit-reservoir recursion of celt_encoder.c:1785-1808 /
@@ -338,6 +381,61 @@ example : lowBudgetGate (budgetSt exSt (exOr 0) 960 2) 960 (sizeBudget (analysis
 example : encArgsOk 48000 2 2049 = true ∧ (encCtl (encInit 48000 2 2049) (.set .bitrate 64000)).2 = Ret.ok := by decide +kernel
 /-- two streams, 20 ms, 255 bytes: the first stream gets 252 bytes (2 reserved for its length), the second the rest. -/
 example : msCurrMax 2 48000 960 255 0 0 = 252 ∧ msCurrMax 2 48000 960 255 254 1 = 1 ∧ msSmallest 2 48000 960 = 3 := by decide +kernel
+/-! non-vacuity of `ms_encode_ret_le_out`: a per-stream encoder inside all three contracts (3 bytes `F8 07 07` when it has
+    room, the ToC-only packet `F8` for budgets 1 and 2, both 20 ms CELT), and the model run on it: two streams, 255 bytes, VBR →
+    `F8 02 07 07` (self-delimited) ++ `F8 07 07`; CBR → padded to exactly 255 bytes; 2 bytes → refused -/
+def exEnc : Nat → Int → Res Bytes := fun _ cm =>
+  if 3 ≤ cm then .ok (serialize false ⟨0xF8, [[7, 7]], false, none⟩)
+  else if 1 ≤ cm then .ok (serialize false ⟨0xF8, [[]], false, none⟩) else .err .badArg
+example : MsEncode.EncContract 48000 960 exEnc ∧ MsEncode.EncTotal exEnc ∧ EncLive (decide (48000 / 960 = 10)) exEnc := by
+  have hv : ∀ f : Bytes, f.length ≤ 1275 → Valid ⟨0xF8, [f], false, none⟩ := fun f hf =>
+    { toc_byte := by show (0xF8 : Nat) < 256; decide
+      frame_max := by intro g hg; simp only [List.mem_singleton] at hg; subst hg; exact hf
+      code0 := fun _ => ⟨rfl, rfl, rfl⟩
+      code1 := fun h => absurd h (by show ¬ ((0xF8 : Nat) % 4 = 1); decide)
+      code2 := fun h => absurd h (by show ¬ ((0xF8 : Nat) % 4 = 2); decide)
+      code3 := fun h => absurd h (by show ¬ ((0xF8 : Nat) % 4 = 3); decide)
+      pad_ok := fun pd h => by cases h }
+  refine ⟨?_, ?_, ?_⟩
+  · intro s cm pk h
+    unfold exEnc at h
+    split at h
+    · cases h
+      exact ⟨_, hv _ (by decide), RepackProofs.count_nil 1 (by decide), rfl, by decide, by
+        simpa [serialize, header, lenFields, Packet.code, Packet.lens, padBytes] using (by assumption : 3 ≤ cm)⟩
+    · split at h
+      · cases h
+        exact ⟨_, hv _ (by decide), RepackProofs.count_nil 1 (by decide), rfl, by decide, by
+          simpa [serialize, header, lenFields, Packet.code, Packet.lens, padBytes] using (by assumption : 1 ≤ cm)⟩
+      · cases h
+  · intro s cm; unfold exEnc
+    constructor <;> intro h <;> split at h <;> (try split at h) <;> cases h
+  · intro s cm h1 _
+    unfold exEnc
+    split
+    · exact ⟨_, rfl⟩
+    · rw [if_pos h1]; exact ⟨_, rfl⟩
+example : MsEncode.encodeNative 2 48000 960 true none 255 exEnc = .ok [0xF8, 2, 7, 7, 0xF8, 7, 7] ∧
+    (match MsEncode.encodeNative 2 48000 960 false none 255 exEnc with | .ok out => decide (out.length = 255) | _ => false) = true ∧
+    MsEncode.encodeNative 2 48000 960 true none 2 exEnc = .err .bufferTooSmall ∧
+    MsEncode.encodeNative 2 48000 960 true none 3 exEnc = .ok [0xF8, 0, 0xF8] := by
+  decide +kernel
+
+/-! non-vacuity of `stOk_along_histories`: a `Reach` instance — create (48 kHz stereo AUDIO), OPUS_SET_BITRATE(64000),
+    OPUS_SET_VBR(0), then one 20 ms encode call (any oracle values; here the CELT frame of `exOr 159`) -/
+example : ∃ e s, Reach e s ∧ s = (encodeNative (stOfEnc (encCtl (encCtl (encInit 48000 2 2049) (.set .bitrate 64000)).1
+      (.set .vbr 0)).1) false 960 4000 (exOr 159)).st ∧ s.prevFramesize = 960 := by
+  have h0 : Reach (encInit 48000 2 2049) (stOfEnc (encInit 48000 2 2049)) :=
+    Reach.init 48000 2 2049 _ (by decide +kernel) (refines_stOfEnc _)
+  have h1 := Reach.ctl (.set .bitrate 64000) (stOfEnc (encCtl (encInit 48000 2 2049) (.set .bitrate 64000)).1) h0
+    (refines_stOfEnc _)
+  have h2 := Reach.ctl (.set .vbr 0) (stOfEnc (encCtl (encCtl (encInit 48000 2 2049) (.set .bitrate 64000)).1 (.set .vbr 0)).1) h1
+    (refines_stOfEnc _)
+  have h3 := Reach.encode false 960 4000 (exOr 159) (obsOfSt (encodeNative (stOfEnc (encCtl (encCtl (encInit 48000 2 2049)
+      (.set .bitrate 64000)).1 (.set .vbr 0)).1) false 960 4000 (exOr 159)).st) h2 (obsOf_obsOfSt _)
+    (freeOk_obsOfSt _ _ (by decide +kernel))
+  exact ⟨_, _, h3, rfl, by decide +kernel⟩
+
 /-- 5.1 surround (4 streams, 2 coupled, LFE last), 48 kHz, 20 ms, 256 kb/s: rates 95120+95120+57560+8195 = 255995,
     within nb_normal+1 = 6 of the total … -/
 example : msRates { nbStreams := 4, nbCoupled := 2, lfeStream := 3, ambisonics := false } 48000 960 256000 = [95120, 95120, 57560, 8195] ∧
